@@ -7,12 +7,12 @@
 // Lock programs are sequences of blocks; a block is an acquisition attempt, an optional parenthesised body that
 // runs only if the attempt succeeded, and the matching release (so every successful lock is followed by its
 // unlock and a run that ends with a parked fiber is a lost wake-up, never a client bug; one lock per scenario):
-//   L lock            T try_lock            F try_lock_for(15ns)        G try_lock_for(1ms)     U try_lock_until(45ns)
+//   L lock            T try_lock            F try_lock_for(15ns)        G try_lock_for(3us)     U try_lock_until(45ns)
 //   Z try_lock_for(0ns)   z try_lock_shared_for(0ns)
-//   l lock_shared     t try_lock_shared     f try_lock_shared_for(15ns) g try_lock_shared_for(1ms) u try_lock_shared_until(45ns)
+//   l lock_shared     t try_lock_shared     f try_lock_shared_for(15ns) g try_lock_shared_for(3us) u try_lock_shared_until(45ns)
 //   Y this_thread::yield   S sleep_for(25ns)
 // Condition variable programs (one mutex, one flag, one condvar):
-//   W {lock; while(!flag) cv.wait; unlock}     w {lock; if(!flag) cv.wait_for(15ns) once; unlock}   x same with 1ms
+//   W {lock; while(!flag) cv.wait; unlock}     w {lock; if(!flag) cv.wait_for(15ns) once; unlock}   x same with 3us
 //   u same with wait_until(200ns)
 //   N {lock; flag=true; unlock; notify_one}    A {...; notify_all}     n notify_one    a notify_all     Y S as above
 // Thread programs: J(<prog>) spawn a thread running <prog> and join it, D(<prog>) spawn and detach, Y, S.
@@ -39,7 +39,7 @@ using Ns = std::chrono::nanoseconds;
 using Clock = yaclib_std::chrono::steady_clock;
 
 constexpr std::int64_t kShort = 15;
-constexpr std::int64_t kLong = 1000000;
+constexpr std::int64_t kLong = 3000;
 constexpr std::int64_t kAbs = 45;
 constexpr std::int64_t kSleep = 25;
 constexpr std::int64_t kAbsLong = 200;
